@@ -57,6 +57,7 @@ struct Inner {
     log: Vec<(usize, usize)>,
     trace: Vec<String>,
     spurious_left: usize,
+    woke_spuriously: Vec<bool>,
     abort: bool,
     stuck: bool,
     registered: usize,
@@ -136,6 +137,7 @@ impl Inner {
             match opts[c] {
                 Opt::Spurious(u) => {
                     self.spurious_left -= 1;
+                    self.woke_spuriously[u] = true;
                     self.pending[u] = Pending::Relock;
                     self.trace.push(format!("S{u}"));
                     continue;
@@ -157,6 +159,10 @@ impl Inner {
 impl Sched {
     fn aborting(&self) -> bool {
         self.inner.lock().unwrap().abort
+    }
+
+    fn with_inner<R>(&self, f: impl FnOnce(&mut Inner) -> R) -> R {
+        f(&mut self.inner.lock().unwrap())
     }
 
     /// Declare the next visible operation, give up the baton, wait until this thread is chosen.
@@ -204,12 +210,26 @@ pub mod simsync {
     pub use std::sync::atomic;
     pub use std::sync::{Arc, LockResult, PoisonError, TryLockError, TryLockResult, Weak};
 
-    pub trait Observable {
+    /// What the monitors may look at: the counter, when the protected state IS a plain integer (as in the
+    /// unchanged semaphore.rs); any other state type (a struct, a tuple) is reported as unknown (i64::MIN)
+    /// and only the counter-independent monitors apply.
+    pub trait Observable: 'static {
         fn obs(&self) -> i64;
     }
-    impl Observable for isize {
+    impl<T: 'static> Observable for T {
         fn obs(&self) -> i64 {
-            *self as i64
+            let a = self as &dyn std::any::Any;
+            if let Some(v) = a.downcast_ref::<isize>() {
+                *v as i64
+            } else if let Some(v) = a.downcast_ref::<i64>() {
+                *v
+            } else if let Some(v) = a.downcast_ref::<i32>() {
+                *v as i64
+            } else if let Some(v) = a.downcast_ref::<usize>() {
+                *v as i64
+            } else {
+                i64::MIN
+            }
         }
     }
 
@@ -264,6 +284,14 @@ pub mod simsync {
         }
     }
 
+    #[derive(Debug, PartialEq, Eq, Copy, Clone)]
+    pub struct WaitTimeoutResult(bool);
+    impl WaitTimeoutResult {
+        pub fn timed_out(&self) -> bool {
+            self.0
+        }
+    }
+
     pub struct Condvar;
 
     impl Condvar {
@@ -306,6 +334,46 @@ pub mod simsync {
                 guard = self.wait(guard)?;
             }
             Ok(guard)
+        }
+        /// `Condvar::wait_timeout`: a wait that may also end without a notification; the scheduler's spurious
+        /// wake-up (offered while the budget lasts) plays the role of the expiring timer and is reported as
+        /// `timed_out() == true`.
+        pub fn wait_timeout<'a, T: Observable>(
+            &self,
+            guard: MutexGuard<'a, T>,
+            _dur: std::time::Duration,
+        ) -> LockResult<(MutexGuard<'a, T>, WaitTimeoutResult)> {
+            let (s, me) = ctx();
+            s.with_inner(|g| g.woke_spuriously[me] = false);
+            match self.wait(guard) {
+                Ok(g) => {
+                    let t = s.with_inner(|i| std::mem::replace(&mut i.woke_spuriously[me], false));
+                    Ok((g, WaitTimeoutResult(t)))
+                }
+                Err(e) => Err(PoisonError::new((e.into_inner(), WaitTimeoutResult(false)))),
+            }
+        }
+        /// `Condvar::wait_timeout_while` as std defines it: loop until the condition is false or the time is up
+        pub fn wait_timeout_while<'a, T: Observable, F>(
+            &self,
+            mut guard: MutexGuard<'a, T>,
+            dur: std::time::Duration,
+            mut condition: F,
+        ) -> LockResult<(MutexGuard<'a, T>, WaitTimeoutResult)>
+        where
+            F: FnMut(&mut T) -> bool,
+        {
+            loop {
+                if !condition(&mut *guard) {
+                    return Ok((guard, WaitTimeoutResult(false)));
+                }
+                let (g, r) = self.wait_timeout(guard, dur)?;
+                guard = g;
+                if r.timed_out() {
+                    let still = condition(&mut *guard);
+                    return Ok((guard, WaitTimeoutResult(still)));
+                }
+            }
         }
         /// `notify_all` wakes every sleeper (each still has to re-acquire the mutex)
         pub fn notify_all(&self) {
@@ -400,6 +468,7 @@ fn run_once(permits: isize, spurious: usize, script: &[Vec<Op>], prefix: Vec<usi
             log: vec![],
             trace: vec![],
             spurious_left: spurious,
+            woke_spuriously: vec![false; n],
             abort: false,
             stuck: false,
             registered: 0,
